@@ -524,6 +524,22 @@ func ruleDotFailAndPrune(rule string) RuleFn {
 						good = false
 					}
 				}
+				if len(ks) == 0 && c.P.Func(callee) == nil {
+					// the helper was folded into pruneCtors (or re-shaped beyond recognition and inlined by the
+					// canonicaliser): its effect must then be visible in the loop itself
+					an.Instrs(fn, func(in ssa.Instruction) {
+						if !an.InLoop(in) {
+							return
+						}
+						if strings.HasSuffix(callee, "pruneGroupResults") {
+							if k, ok := in.(ssa.CallInstruction); ok && strings.HasSuffix(an.CalleeName(k), ".removeResult") {
+								good = true
+							}
+						} else if k, ok := in.(ssa.CallInstruction); ok && strings.HasSuffix(an.CalleeName(k), ".removeParam") {
+							good = true
+						}
+					})
+				}
 				c.Check(good, rule, "pruneCtors calls "+callee+" for every dropped constructor", "inside the loop over dg.Ctors", "a pruned constructor's references survive in the graph ("+callee+" is not called for it)", nil, nil)
 			}
 			del := false
